@@ -289,8 +289,12 @@ def _impl(case):
     except KeyError as e:
         out["not_a_copy"] = repr(e)
         return out
-    r2 = np.asarray(M.grey_reconstruction(r, msk, fp))
-    out["again_same"] = bool(r2.shape == r.shape and np.array_equal(r2, r))
+    try:
+        r2 = np.asarray(M.grey_reconstruction(r, msk, fp))
+        out["again_same"] = bool(r2.shape == r.shape and np.array_equal(r2, r))
+    except Exception as e:      # noqa: the first output is still reported and checked
+        out["again_same"] = False
+        out["again_exc"] = type(e).__name__
     return out
 
 
